@@ -288,7 +288,7 @@ def cases(tier, seed):
         if fs > SIZE_CAP[tier]:
             continue
         depth = _depth(spec)
-        if depth is None:
+        if depth is None or _expected_refusal(spec) is not None:
             out.append((rank, fs, 0, dict(label=label, grid=spec, level="all", tier=tier)))
             continue
         for l in range(depth + 1):
@@ -758,7 +758,7 @@ def _check_level(s, g, rg, l, stats, tags, case):
                 i, j = np.argwhere(rel != rel.T)[0]
                 raise Fail("neighbourhood", "asymmetric", "window %s: %d lists %d as neighbour but not vice versa" % (wl, i, j))
             tags.add("nbsym")
-        if (~mask).any() and _has_hp(s) and "9" in wl:
+        if (~mask).any() and _has_hp(s) and "9" in wl and s["k"] != "sparse":
             fills = (~mask).sum()
             srt = np.sort(np.ravel_multi_index(tuple(nbf), tuple(int(x) for x in rl.shape)), axis=1)
             dups = int(np.sum(np.any(srt[:, 1:] == srt[:, :-1], axis=1)))
@@ -852,12 +852,16 @@ def _check_resort(s, lv, lv1, rl, rl1, R, Rref, tags, stats):
         raise Fail("resort", "raises:%s" % type(e).__name__, "resort raised %r on the children array of shape %s" % (e, batched.shape))
     stats["lib_calls"] += 1
     if got.shape != want.shape or not np.array_equal(got, want):
+        if got.shape == want.shape:
+            j = _first_bad(got != want)
+            where = "position %s holds the value of child %s" % (j, list(np.unravel_index(int(got[tuple(j)]), want.shape)))
+        else:
+            where = "shape %s, expected %s" % (got.shape, want.shape)
         if _contains_serial_flat(s) and s["k"] == "prod":
             raise Fail("resort", "serial-flat-factor-silently-misordered",
                        "MGrid with a serial FlatGrid factor: resort() is documented as not implemented but silently "
-                       "returns a wrong arrangement (first rows %s, expected %s)" % (got.reshape(-1)[:8].tolist(), want.reshape(-1)[:8].tolist()))
-        raise Fail("resort", "misordered", "resort() does not place children at their own index: got %s..., expected %s... (shape %s vs %s)"
-                   % (got.reshape(-1)[:8].tolist(), want.reshape(-1)[:8].tolist(), got.shape, want.shape))
+                       "returns a wrong arrangement (%s)" % where)
+        raise Fail("resort", "misordered", "resort() does not place children at their own index: %s" % where)
     tags.add("resort")
 
 
